@@ -156,10 +156,10 @@ Qed.
 Lemma dlinv_nil c lw : c_T c = [] -> dlinv c lw.
 Proof. intros H t Ht. rewrite H in Ht. destruct Ht. Qed.
 
-Theorem step_dstate fb tid_of c o lw : dstate c lw ->
+Lemma step_dstate_base fb tid_of c o lw : not_race o -> dstate c lw ->
   let '(c', ob) := c_step true fb tid_of c o in dstate c' (lw_run lw ob).
 Proof.
-  intros (Ht & Hs & Ha & Hd).
+  intros Hnr (Ht & Hs & Ha & Hd).
   pose proof (step_budget true fb tid_of c o Ht) as B. pose proof (step_sinv fb tid_of c o Hs) as S.
   (* the agent invariant: every step applies agent operations only *)
   destruct (c_closed c) eqn:Hc.
@@ -167,7 +167,7 @@ Proof.
     destruct (c_step true fb tid_of c o) as [c' ob] eqn:E. destruct B as (I' & _ & _). cbn [fst] in S.
     assert (Hc' : c_closed c' = true /\ c_A c' = c_A c).
     { destruct Hs as (_ & _ & S3). destruct (S3 Hc) as [Sa St].
-      destruct o as [id raw h|raw|d|now|now|r|s| |now|d|fid|sid]; cbn [c_step] in E.
+      destruct o as [id raw h|raw|d|now|now|r|s| |now|d|fid|sid|rid rraw rh]; cbn [c_step] in E; [| | | | | | | | | | | |destruct Hnr].
       - unfold c_start, c_start_gen in E. rewrite Hc in E. injection E as <- _. auto.
       - unfold c_start, c_start_gen in E. rewrite Hc in E. injection E as <- _. auto.
       - unfold c_deliver in E. destruct (decode _) as [m st]. destruct st as [[]| | |]; try (injection E as <- _; auto).
@@ -184,7 +184,7 @@ Proof.
     destruct Hc' as [Hc' HA']. split; [exact I'|]. split; [exact S|]. split; [rewrite HA'; exact Ha|].
     apply dlinv_nil. destruct S as (_ & _ & S3). apply S3, Hc'. }
   destruct Hs as (Cv & S2 & S3). specialize (S2 Hc).
-  destruct o as [id raw h|raw|d|now|now|r|s| |now|d|fid|sid]; cbn [c_step] in *.
+  destruct o as [id raw h|raw|d|now|now|r|s| |now|d|fid|sid|rid rraw rh]; cbn [c_step] in *; [| | | | | | | | | | | |destruct Hnr].
   - (* Start *)
     unfold c_start, c_start_gen in *. rewrite Hc in *.
     set (t := mkTxn (c_next_inst c) id 0 0 h (c_rto c) raw) in *.
@@ -333,6 +333,33 @@ Proof.
       pose proof (astep_lookup_other (c_A c) (AStopErr sid E_STOPPED) sid (t_id t) Ha Hne) as Hl. rewrite Est in Hl. cbn [fst] in Hl.
       rewrite Hl by (right; left; eexists; reflexivity). apply Hd, Hin. }
     split; [exact I2|]. split; [exact S|]. split; assumption.
+Qed.
+
+Theorem step_dstate fb tid_of c o lw : dstate c lw ->
+  let '(c', ob) := c_step true fb tid_of c o in dstate c' (lw_run lw ob).
+Proof.
+  intros D.
+  destruct o as [id raw h|raw|d|now|now|r|s| |now|d|fid|sid|rid rraw rh];
+    try (apply step_dstate_base; [exact I | exact D]).
+  pose proof D as (Ht & Hs & Ha & Hd).
+  pose proof (step_budget true fb tid_of c (CStartRace rid rraw rh) Ht) as B.
+  pose proof (step_sinv fb tid_of c (CStartRace rid rraw rh) Hs) as S.
+  cbn [c_step] in *. unfold c_start_race in *.
+  destruct (c_closed c || match T_find rid (c_T c) with Some _ => true | None => false end) eqn:E.
+  - pose proof (step_dstate_base fb tid_of c (CStart rid rraw rh) lw I D) as D1. cbn [c_step] in D1.
+    destruct (c_start c rid rraw (Some rh)) as [c1 o1].
+    pose proof (step_dstate_base fb tid_of c1 CClose (lw_run lw o1) I D1) as D2. cbn [c_step] in D2.
+    destruct (c_close true fb c1) as [c2 o2]. rewrite lw_run_app. exact D2.
+  - apply orb_false_iff in E as [Ec Ef]. destruct Hs as (Cv & S2 & S3). specialize (S2 Ec).
+    set (t := mkTxn (c_next_inst c) rid 0 0 rh (c_rto c) rraw) in *.
+    set (c0 := mkClient _ _ _ _ _ _ _ _ _ _ (c_next_inst c + 1)) in *.
+    set (c1 := upd_T c0 (c_T c0 ++ [t])) in *.
+    destruct (close_core_T fb (set_closed c1) eq_refl S2) as (_ & Ra & Rc).
+    pose proof (close_core_ainv fb (set_closed c1) S2) as HA2.
+    destruct (c_close_core true fb (set_closed c1)) as [c2 o2]. cbn [fst] in Ra, Rc, HA2.
+    rewrite (astep_closed_same _ _ Ra) in *. cbn [fst] in S. destruct B as (I' & _ & _).
+    split; [exact I'|]. split; [exact S|]. split; [cbn [c_A upd_T upd_A]; exact HA2|].
+    apply dlinv_nil. destruct S as (_ & _ & S3'). apply S3'. cbn [c_closed upd_T upd_A]. exact Rc.
 Qed.
 
 (* ---------- what a collector tick may do, and when ---------- *)
